@@ -30,7 +30,19 @@ type ScanReturn struct {
 
 func isScannerField(v ssa.Value, field string) bool {
 	fa, ok := v.(*ssa.FieldAddr)
-	return ok && typeName(fa.X.Type()) == "Scanner" && fieldName(fa) == field
+	if !ok || fieldName(fa) != field {
+		return false
+	}
+	if typeName(fa.X.Type()) == "Scanner" {
+		return true
+	}
+	// a field of a struct embedded in the scanner (`type Scanner struct { ..; scanState }`): s.pos is s.scanState.pos
+	if outer, isFA := fa.X.(*ssa.FieldAddr); isFA && typeName(outer.X.Type()) == "Scanner" {
+		if st, isS := deref(outer.X.Type()).Underlying().(*types.Struct); isS && outer.Field < st.NumFields() && st.Field(outer.Field).Embedded() {
+			return true
+		}
+	}
+	return false
 }
 
 // peekKind classifies the scanner's look-ahead helpers by signature:
